@@ -94,7 +94,18 @@ class MapGen:
         return len(self.texts)
 
     def rand_text(self):
-        return "".join(chr(self.rng.randrange(33, 127)) for _ in range(self.rng.choice([1, 3, 8, 15])))
+        rng = self.rng
+        if self.opts.get("near_texts", True) and rng.random() < 0.2:
+            # the neighbourhood of the texts the map already has: the empty text, and texts differing from an
+            # existing one only by blanks, control / colour codes or letter case (a lookup that normalises its keys
+            # merges exactly these)
+            pool = [t for t in self.texts if t and t != "Anywhere"]
+            if not pool or rng.random() < 0.15:
+                return ""
+            t = rng.choice(pool)
+            return rng.choice([" " + t, t + " ", "\x1f" + t, t + "\n", "\t" + t, t + "\r", t.swapcase(), t + "\x02", "\x04" + t,
+                               t.strip() + "  ", t[:-1] if len(t) > 1 else t + t])
+        return "".join(chr(rng.randrange(33, 127)) for _ in range(rng.choice([1, 3, 8, 15])))
 
     def build(self):
         rng = self.rng
@@ -166,6 +177,8 @@ class MapGen:
         # switches, wavs
         dens = self.opts.get("swnm_density", rng.choice([0.05, 0.05, 0.5, 0.9]))
         swnm = [self.sid(self.rand_text()) if rng.random() < dens else 0 for _ in range(256)]
+        if self.opts.get("swnm_empty_ref"):
+            swnm[3] = self.sid("")
         wavs = [self.sid("staredit\\wav\\" + self.rand_text() + ".wav") if rng.random() < 0.02 else 0 for _ in range(512)]
         self.wav_sids = [w for w in wavs if w]
         # unit settings
